@@ -15,6 +15,8 @@ CONSTANTS NK,        \* keys 1..NK
           MaxSlot,   \* bound on the fill mark of a table (state constraint of the exhaustive configs)
           MaxOps,    \* operations per commit (= per log record)
           MaxLog,    \* records logged and not yet enacted
+          RC,        \* TRUE: reference-counted column (preimage contract: the value is a function of the key): a Set of
+                     \* a present key raises its count, a Dereference lowers it and frees the storage at zero
           KeepHist, GenLen,
           Mut        \* deliberately wrong variants (necessity configs)
 
@@ -39,9 +41,10 @@ VARIABLES mem,    \* [Tiers -> [f, l, d]]: fill mark, free-list head, dirty_head
           log,    \* closed records not yet enacted
           file, fhdr, fidx,   \* the files
           val, valc,          \* ghost: logical content now / at the last closed record
+          cnt, cntc,          \* reference counts (RC) now / at the last closed record
           peak,               \* ghost: most slots of a table ever live at once
           hist, tags
-vars == <<mem, cur, idx, w, iw, nops, log, file, fhdr, fidx, val, valc, peak, hist, tags>>
+vars == <<mem, cur, idx, w, iw, nops, log, file, fhdr, fidx, val, valc, cnt, cntc, peak, hist, tags>>
 
 ----------------------------------------------------------------------------
 (* planning state threaded through the steps of one operation *)
@@ -120,15 +123,26 @@ Expect ==
 Rec(a, k, kind) ==
     hist' = IF KeepHist THEN Append(hist, [a |-> a, k |-> k, t |-> kind.t, n |-> kind.n, x |-> Expect]) ELSE hist
 
+\* counting column: the kind of a key's value is fixed (the value is a function of the key)
+KindSeq == LET RECURSIVE KS(_)
+               KS(S) == IF S = {} THEN <<>> ELSE LET x == CHOOSE y \in S : TRUE IN <<x>> \o KS(S \ {x})
+           IN KS(Kinds)
+KindOf(k) == KindSeq[(k % Len(KindSeq)) + 1]
+
 \* ghost: most slots of a table live at once (after an operation)
 PeakUp == peak' = [t \in Tiers |-> LET n == SumLen(Live(cur', idx', t)) IN IF n > peak[t] THEN n ELSE peak[t]]
 
 (* client operations, planned into the record under construction *)
 Set(k, kind) ==
     /\ nops < MaxOps /\ Len(log) < MaxLog
+    /\ RC => kind = KindOf(k)
+    /\ cnt' = IF RC THEN [cnt EXCEPT ![k] = @ + 1] ELSE cnt
     /\ LET S == St
            at == idx[k] IN
-       /\ IF at.t = 0
+       /\ IF RC /\ at.t # 0
+          \* ValueTable::change_ref: the entry is logged again with the new count, nothing is allocated
+          THEN Commit([S EXCEPT !.w = @ \cup {<<at.t, at.a>>}, !.tags = @ \cup {"inc_ref"}])
+          ELSE IF at.t = 0
           THEN LET r == InsertPlan(S, kind.t, k, kind.n) IN
                Commit([r.S EXCEPT !.idx[k] = [t |-> kind.t, a |-> r.a], !.iw = @ \cup {k}, !.tags = @ \cup {"insert"}])
           ELSE IF at.t = kind.t
@@ -138,15 +152,19 @@ Set(k, kind) ==
                Commit([r.S EXCEPT !.idx[k] = [t |-> kind.t, a |-> r.a], !.iw = @ \cup {k}, !.tags = @ \cup {"move"}])
     /\ val' = [val EXCEPT ![k] = kind]
     /\ PeakUp
-    /\ UNCHANGED <<log, file, fhdr, fidx, valc>>
+    /\ UNCHANGED <<log, file, fhdr, fidx, valc, cntc>>
     /\ Rec("set", k, kind)
 
 Remove(k) ==
     /\ nops < MaxOps /\ Len(log) < MaxLog
     /\ idx[k].t # 0
-    /\ Commit([RemovePlan(St, idx[k].t, idx[k].a) EXCEPT !.idx[k] = NoAddr, !.iw = @ \cup {k}, !.tags = @ \cup {"remove"}])
-    /\ val' = [val EXCEPT ![k] = NoKind]
-    /\ UNCHANGED <<log, file, fhdr, fidx, valc, peak>>
+    /\ IF RC /\ cnt[k] > 1
+       THEN /\ Commit([St EXCEPT !.w = @ \cup {<<idx[k].t, idx[k].a>>}, !.tags = @ \cup {"dec_ref"}])
+            /\ val' = val
+       ELSE /\ Commit([RemovePlan(St, idx[k].t, idx[k].a) EXCEPT !.idx[k] = NoAddr, !.iw = @ \cup {k}, !.tags = @ \cup {"remove"}])
+            /\ val' = [val EXCEPT ![k] = NoKind]
+    /\ cnt' = IF RC THEN [cnt EXCEPT ![k] = @ - 1] ELSE cnt
+    /\ UNCHANGED <<log, file, fhdr, fidx, valc, cntc, peak>>
     /\ Rec("rem", k, NoKind)
 
 \* DbInner::process_commits end of record: Column::complete_plan logs the header of every table whose fill mark or
@@ -158,8 +176,8 @@ EndRecord ==
        log' = Append(log, r)
     /\ mem' = [t \in Tiers |-> [mem[t] EXCEPT !.d = FALSE]]
     /\ w' = {} /\ iw' = {} /\ nops' = 0
-    /\ valc' = val
-    /\ UNCHANGED <<cur, idx, file, fhdr, fidx, val, peak, tags>>
+    /\ valc' = val /\ cntc' = cnt
+    /\ UNCHANGED <<cur, idx, file, fhdr, fidx, val, cnt, peak, tags>>
     /\ Rec("end", 0, NoKind)
 
 Apply(fs, r) ==
@@ -175,7 +193,7 @@ Enact ==
     /\ LET fs == Apply([file |-> file, fhdr |-> fhdr, fidx |-> fidx], Head(log)) IN
        file' = fs.file /\ fhdr' = fs.fhdr /\ fidx' = fs.fidx
     /\ log' = Tail(log)
-    /\ UNCHANGED <<mem, cur, idx, w, iw, nops, val, valc, peak, tags>>
+    /\ UNCHANGED <<mem, cur, idx, w, iw, nops, val, valc, cnt, cntc, peak, tags>>
     /\ Rec("enact", 0, NoKind)
 
 \* process crash + Db::open: every closed record is in a log file and is replayed, the record under construction
@@ -186,9 +204,9 @@ Crash ==
        /\ cur' = fs.file /\ idx' = fs.fidx
        /\ mem' = [t \in Tiers |-> [f |-> IF fs.fhdr[t].f = 0 THEN 1 ELSE fs.fhdr[t].f, l |-> fs.fhdr[t].l, d |-> FALSE]]
     /\ log' = <<>> /\ w' = {} /\ iw' = {} /\ nops' = 0
-    /\ val' = valc
+    /\ val' = valc /\ cnt' = cntc
     /\ tags' = tags \cup {"crash"} \cup (IF log # <<>> THEN {"crash_replays"} ELSE {})
-    /\ UNCHANGED <<valc, peak>>
+    /\ UNCHANGED <<valc, cntc, peak>>
     /\ Rec("crash", 0, NoKind)
 
 Init ==
@@ -200,6 +218,7 @@ Init ==
     /\ fhdr = [t \in Tiers |-> [f |-> 0, l |-> 0]]
     /\ fidx = [k \in Keys |-> NoAddr]
     /\ val = [k \in Keys |-> NoKind] /\ valc = [k \in Keys |-> NoKind]
+    /\ cnt = [k \in Keys |-> 0] /\ cntc = [k \in Keys |-> 0]
     /\ peak = [t \in Tiers |-> 0]
     /\ hist = <<>> /\ tags = {}
 
@@ -211,7 +230,10 @@ Spec == Init /\ [][Next]_vars
 \* exhaustive configs: fill marks stay below the bound (a chain may need up to the longest part count of new slots)
 MaxPart == CHOOSE p \in Parts : \A q \in Parts : q <= p
 Bounded == \A t \in Tiers : mem[t].f + MaxPart <= MaxSlot
-View == <<mem, cur, idx, w, iw, nops, log, file, fhdr, fidx, val, valc, peak>>
+View == <<mem, cur, idx, w, iw, nops, log, file, fhdr, fidx, val, valc, cnt, cntc, peak>>
+MaxCnt == 3
+CntBound == \A k \in Keys : cnt[k] <= MaxCnt
+BoundedRC == Bounded /\ CntBound
 
 ----------------------------------------------------------------------------
 (* C14 / C06 on the design *)
@@ -243,6 +265,8 @@ FileSound == SoundView(file, fidx, [t \in Tiers |-> IF fhdr[t].f = 0 THEN 1 ELSE
 ContentOK == \A k \in Keys :
     /\ (idx[k].t = 0) = (val[k].t = 0)
     /\ idx[k].t # 0 => idx[k].t = val[k].t /\ Len(Live(cur, idx, idx[k].t)[k]) = val[k].n
+    \* counting column: a key is stored exactly while its count is positive
+    /\ RC => ((cnt[k] > 0) = (idx[k].t # 0))
 
 \* storage is released and reused: a table never holds more slots than were live at once after some operation
 NoBloat == \A t \in Tiers : mem[t].f - 1 <= peak[t]
@@ -254,13 +278,14 @@ TypeOK == /\ \A t \in Tiers : mem[t].f \in 1..(MaxSlot + 1) /\ mem[t].l \in 0..M
 (* generation for the replay *)
 W(p) == RandomElement(1..100) <= p
 Present == {k \in Keys : idx[k].t # 0}
-Stutter(a) == UNCHANGED <<mem, cur, idx, w, iw, nops, log, file, fhdr, fidx, val, valc, peak, tags>> /\ Rec(a, 0, NoKind)
+Stutter(a) == UNCHANGED <<mem, cur, idx, w, iw, nops, log, file, fhdr, fidx, val, valc, cnt, cntc, peak, tags>> /\ Rec(a, 0, NoKind)
 GenNext ==
     IF nops > 0 /\ (nops = MaxOps \/ W(55)) THEN EndRecord
     ELSE IF nops = 0 /\ log # <<>> /\ (Len(log) = MaxLog \/ W(30)) THEN Enact
     ELSE IF nops = 0 /\ W(6) THEN Crash
     ELSE IF nops = 0 /\ log = <<>> /\ W(10) THEN Stutter("clean")
     ELSE IF Present # {} /\ W(30) THEN Remove(RandomElement(Present))
+    ELSE IF RC THEN \E k \in {RandomElement(Keys)} : Set(k, KindOf(k))
     ELSE \E k \in {RandomElement(Keys)} : \E kind \in {RandomElement(Kinds)} :
            \* replacing a value by one in the same table is the interesting case: half of the time
            IF idx[k].t # 0 /\ W(50) THEN \E k2 \in {RandomElement({x \in Kinds : x.t = idx[k].t})} : Set(k, k2)
